@@ -605,3 +605,38 @@ Lemma C18_fuel_lemma :
 Proof.
   intros St add qs st. split; [intros; apply loop_progress; assumption | apply run_fuel_suffices].
 Qed.
+
+(* ---- several reads on one request ---- *)
+
+Lemma C18_access_order_lemma :
+  forall (qs : str) (body : list N) (order : list accessor),
+    (* the i-th read returns what its accessor returns on a fresh request, whatever was read before *)
+    (forall i, nth_error (read_seq qs body order) i = option_map (read_one qs body) (nth_error order i))
+    (* hence two reads through the same accessor agree, in any two access orders *)
+    /\ (forall order' i j a, nth_error order i = Some a -> nth_error order' j = Some a ->
+          nth_error (read_seq qs body order) i = nth_error (read_seq qs body order') j).
+Proof.
+  intros qs body order.
+  assert (H : forall o i, nth_error (read_seq qs body o) i = option_map (read_one qs body) (nth_error o i)).
+  { intros o i. unfold read_seq. apply nth_error_map. }
+  split; [apply H|]. intros order' i j a Hi Hj. rewrite !H, Hi, Hj. reflexivity.
+Qed.
+
+Lemma C18_access_roundtrip_lemma :
+  forall ps1 ps2 order,
+    (forall k v, In (k, v) (ps1 ++ ps2) -> k <> [] /\ Forall scalar k /\ Forall scalar v) ->
+    read_seq (urlencode ps1) (urlencode ps2) order
+    = map (fun a => QDone match a with
+                          | AQuery => group ps1
+                          | AForms => group ps2
+                          | AParams => dict_update (group ps1) (group ps2)
+                          end) order.
+Proof.
+  intros ps1 ps2 order H. unfold read_seq. apply map_ext. intros a.
+  assert (H1 : sendable ps1) by (apply sendable_of_in; intros; apply H, in_or_app; auto).
+  assert (H2 : sendable ps2) by (apply sendable_of_in; intros; apply H, in_or_app; auto).
+  destruct a; cbn [read_one].
+  - rewrite query_eq. apply into_plus, H1.
+  - unfold forms_urlencoded, latin1_dec. apply into_plus, H2.
+  - apply C18_params_lemma, H.
+Qed.
